@@ -212,6 +212,7 @@ func checkLinkRelDerivation(p *Program, r *Report, rule string) {
 	pv := NewProv(p)
 	pv.NoInline = true
 	n := 0
+	markers := 0
 	for _, st := range storesToField(fn, pkgTemplate, "context", "linkRel") {
 		e := pv.Of(st.Val)
 		// plain propagation of the existing value is not a derivation
@@ -221,6 +222,9 @@ func checkLinkRelDerivation(p *Program, r *Report, rule string) {
 		if k, ok := e.IsConstString(); ok {
 			// the "unknown" marker: must contain no rel value
 			r.Check(len(strings.Fields(k)) == 0, rule, cn+"#unknown-marker", p.Pos(st.Pos()), "a rel attribute that is not fully static records no rel value", fmt.Sprintf("constant rel values %q are recorded", k))
+			if k != "" && len(strings.Fields(k)) == 0 {
+				markers++
+			}
 			continue
 		}
 		n++
@@ -257,6 +261,9 @@ func checkLinkRelDerivation(p *Program, r *Report, rule string) {
 	if n == 0 {
 		r.Undec(rule, cn, p.Pos(fn.Pos()), "no derivation of linkRel found")
 	}
+	// the first rel attribute is remembered even when its values are unknown: otherwise a later duplicate (which
+	// browsers ignore) would be taken for the element's rel values
+	r.Check(markers > 0, rule, cn+"#first-rel-remembered", p.Pos(fn.Pos()), "a first rel attribute whose values are not static is recorded with a value-less, non-empty marker", "a first rel attribute that contains an action or depends on a conditional leaves linkRel empty (\"no rel seen yet\"): a later duplicate static rel is then taken for the element's rel values although browsers keep the first — "+`<link rel="{{.R}}" rel="icon" href="{{.H}}"> with R="stylesheet" emits an untrusted stylesheet URL`)
 	// an action inside link/rel marks the value as not static
 	ea := p.Func("template", "(*escaper).escapeAction")
 	marked := false
